@@ -759,6 +759,16 @@ func (gs *GossipSubRouter) OnClosedIncomingStream(pid peer.ID, proto protocol.ID
 	if gs.feature(GossipSubFeatureExtensions, proto) {
 		gs.extensions.OnClosedIncomingStream(pid, proto)
 	}
+	// A peer we never had an outbound stream to can still have GRAFTed itself
+	// into a mesh; OnClosedOutboundStream will never run for it.
+	if _, ok := gs.peers[pid]; !ok {
+		for topic, peers := range gs.mesh {
+			if _, inMesh := peers[pid]; inMesh {
+				gs.tracer.Prune(pid, topic)
+				delete(peers, pid)
+			}
+		}
+	}
 }
 
 func (gs *GossipSubRouter) OnNewOutboundStream(p peer.ID, proto protocol.ID, helloPacket *RPC) *RPC {
